@@ -138,9 +138,68 @@ func (e *Engine) callExternal(fn *types.Func, recv Value, args []Value, cx *ast.
 		rt := recv.(VTerm).T
 		rs := st.getMem("sqlrs:"+rt.String(), mkApp("sql_rs0", SRef, rt))
 		cur := st.getMem("sqlcur:"+rt.String(), mkApp("sql_cur0", SInt, rt))
-		more := mkCmp("<", cur, mkApp("sql_nrows", SInt, rs))
+		// a closed result set yields no further rows
+		closed := st.getMem("sqlclosed:"+rt.String(), tFalse)
+		more := mkAnd(mkCmp("<", cur, mkApp("sql_nrows", SInt, rs)), mkNot(closed))
 		st.mem["sqlcur:"+rt.String()] = mkIte(more, mkArith("+", cur, mkInt(1)), cur)
 		return VTerm{T: more, Typ: types.Typ[types.Bool]}
+	case "reflect.Value.Kind":
+		return VTerm{T: mkApp("reflect_kind", SInt, term(recv)), Typ: fn.Type().(*types.Signature).Results().At(0).Type()}
+	case "reflect.Value.Type":
+		return VTerm{T: mkApp("reflect_type", SRef, term(recv)), Typ: fn.Type().(*types.Signature).Results().At(0).Type()}
+	case "reflect.Type.String", "reflect.rtype.String":
+		return VTerm{T: mkApp("reflect_typestr", SStr, term(recv)), Typ: types.Typ[types.String]}
+	case "reflect.Value.Interface":
+		// the dynamic type of v.Interface() is the type v.Type() names
+		r := mkApp("reflect_iface", SRef, term(recv))
+		ts := mkApp("reflect_typestr", SStr, mkApp("reflect_type", SRef, term(recv)))
+		st.assume(mkImplies(mkEq(ts, mkConst("str_"+sanitize("time.Time"), SStr)), mkApp("dyn_is_"+sanitize("time.Time"), SBool, r)))
+		return VTerm{T: r, Typ: fn.Type().(*types.Signature).Results().At(0).Type()}
+	case "reflect.Value.String", "reflect.Value.Bool", "reflect.Value.Int", "reflect.Value.Uint", "reflect.Value.Float":
+		// the payload of a reflect.Value, one ghost per accessor (rval_Float(v), ...)
+		rt := fn.Type().(*types.Signature).Results().At(0).Type()
+		so := e.sortOf(rt)
+		key := "rval_" + fn.Name() + ":" + term(recv).String()
+		return e.wrap(st.getMem(key, mkApp("rval_"+fn.Name(), so, term(recv))), rt)
+	case "reflect.Value.SetString", "reflect.Value.SetBool", "reflect.Value.SetInt", "reflect.Value.SetUint", "reflect.Value.SetFloat":
+		st.mem["rval_"+strings.TrimPrefix(fn.Name(), "Set")+":"+term(recv).String()] = term(args[0])
+		return VTuple{}
+	case "strconv.FormatBool", "strconv.FormatInt", "strconv.FormatUint", "strconv.FormatFloat":
+		// formatting as an uninterpreted function of all its arguments: str_FormatFloat(x, fmt, prec, bits), ...
+		var ts []*Term
+		for _, a := range args {
+			ts = append(ts, term(a))
+		}
+		return VTerm{T: mkApp("str_"+fn.Name(), SStr, ts...), Typ: types.Typ[types.String]}
+	case "strconv.ParseBool", "strconv.ParseInt", "strconv.ParseUint", "strconv.ParseFloat":
+		// assumed round trip (documented for the strconv pairs): parsing what the matching formatter produced, with the
+		// same base / bit size and, for floats, format 'g' with precision -1, returns that value and no error
+		e.notes["assumed external: strconv round trips: ParseBool(FormatBool(b)) == b; ParseInt(FormatInt(v,10),10,bits) == v and ParseUint(FormatUint(v,10),10,bits) == v for v within bits; ParseFloat(FormatFloat(x,'g',-1,bits),bits) == x for x representable in bits"] = true
+		sig := fn.Type().(*types.Signature)
+		rt := sig.Results().At(0).Type()
+		so := e.sortOf(rt)
+		val := e.fresh("parsed", so)
+		err := e.fresh("err", SRef)
+		nilT := mkConst("nil", SRef)
+		sv := term(args[0])
+		e.nfresh++
+		x := mkVar(fmt.Sprintf("x$%d", e.nfresh), so)
+		var formatted *Term
+		switch fn.Name() {
+		case "ParseBool":
+			formatted = mkApp("str_FormatBool", SStr, x)
+		case "ParseInt":
+			formatted = mkApp("str_FormatInt", SStr, x, term(args[1]))
+		case "ParseUint":
+			formatted = mkApp("str_FormatUint", SStr, x, term(args[1]))
+		case "ParseFloat":
+			formatted = mkApp("str_FormatFloat", SStr, x, mkInt('g'), mkInt(-1), term(args[1]))
+		}
+		st.assume(mkForall([]*Term{x}, mkImplies(mkEq(sv, formatted), mkAnd(mkEq(err, nilT), mkEq(val, x))), [][]*Term{{formatted}}))
+		return VTuple{e.wrap(val, rt), VTerm{T: err, Typ: sig.Results().At(1).Type()}}
+	case "database/sql.Rows.Close":
+		st.mem["sqlclosed:"+recv.(VTerm).T.String()] = tTrue
+		return VTerm{T: e.fresh("err", SRef), Typ: fn.Type().(*types.Signature).Results().At(0).Type()}
 	case "database/sql.Rows.Scan", "database/sql.Row.Scan":
 		rt := recv.(VTerm).T
 		rs := st.getMem("sqlrs:"+rt.String(), mkApp("sql_rs0", SRef, rt))
